@@ -90,11 +90,14 @@ def run(ctx):
     seen = set()
     for r in rows:
         if r["outcome"] != "parse_error":
-            seen.add(vcheck.case_hash([r["text"], r["store"]]))
+            seen.add(vcheck.case_hash([r["text"], r["store"], r.get("cfg")]))
     ctx.cov["distinct_nontrivial"] = len(seen)
     ctx.cov["rule"] = ("texts: hand-written corpus (incl. every known crash shape), one grammar witness per alternative, token-level and "
                        "byte-level mutations, odd-value substitutions, random bytes, random lexeme sequences, and exhaustively all "
-                       "token-kind sequences up to length %d over all kinds; each against an empty and a populated store; "
+                       "token-kind sequences up to length %d over all kinds; template products (CONSTRUCT/DECONSTRUCT value kinds, "
+                       "SELECT modifier x LIMIT boundaries, every driver lookup shape x LIMIT, tokens whose text contains the delimiters "
+                       "the hooks split on); each against an empty and a populated store; corpus, templates and witnesses also under "
+                       "planner.New(chanSize, bulkSize) = (0,0), (1,1), (3,1000) besides (0,10); "
                        "non-trivial = gets past parsing (reaches planning/execution); distinct by (text, store)" % (3 if thorough else 2))
     ctx.cov["outcomes"] = dict(collections.Counter(r["outcome"] for r in rows))
     ctx.cov["kinds"] = dict(collections.Counter(r["kind"] for r in rows))
